@@ -25,13 +25,15 @@ impl Parser for Go {
         let mut actual_source = actual.get_content(source);
 
         if matches!(actual_source, ['g', 'o', ':', ..]) {
-            let Some(terminator) = source.iter().position(|c| *c == '\n') else {
+            // Skip the directive's line. `actual` indexes into `source`, so the line
+            // end is located relative to `actual_source` and the rest is cut from `source`.
+            let Some(terminator) = actual_source.iter().position(|c| *c == '\n') else {
                 return Vec::new();
             };
 
             actual.start += terminator;
 
-            let Some(new_source) = actual.try_get_content(actual_source) else {
+            let Some(new_source) = actual.try_get_content(source) else {
                 return Vec::new();
             };
 
